@@ -39,7 +39,9 @@ def compact(events):
             op, p = e["op"], e["path"]
             if is_lock(p):
                 continue
-            if op == "open_write" and e.get("ok"):
+            if op == "fault":
+                out.append({"e": "fault"})
+            elif op == "open_write" and e.get("ok"):
                 out.append(dict({"e": "create", "p": p}, **segfields(p)))
             elif op == "terminate":
                 out.append({"e": "term", "p": p})
